@@ -1,0 +1,103 @@
+//! Verification hook (cargo feature `verif`): the worker resource allocator as a stand-alone object.
+use std::rc::Rc;
+
+use serde_json::{Value, json};
+
+use crate::internal::common::resources::request::{
+    AllocationRequest, ResourceAllocRequest, ResourceRequest,
+};
+use crate::internal::worker::resources::allocator::ResourceAllocator;
+use crate::internal::worker::resources::map::ResourceLabelMap;
+use crate::resources::{Allocation, ResourceAmount, ResourceDescriptor, ResourceIdMap};
+
+pub struct SimAllocator {
+    allocator: ResourceAllocator,
+    map: ResourceIdMap,
+    live: Vec<Option<Rc<Allocation>>>,
+}
+
+/// (resource name, policy name, amount in 1/10000) - policy: compact, compact!, tight, tight!, scatter, all
+pub type SimRequest = Vec<(String, String, u64)>;
+
+impl SimAllocator {
+    pub fn new(desc: &ResourceDescriptor) -> Self {
+        let map = ResourceIdMap::from_vec(desc.resources.iter().map(|r| r.name.clone()).collect());
+        let label_map = ResourceLabelMap::new(desc, &map);
+        SimAllocator {
+            allocator: ResourceAllocator::new(desc, &map, &label_map),
+            map,
+            live: Vec::new(),
+        }
+    }
+
+    fn request(&self, rq: &SimRequest) -> ResourceRequest {
+        let entries = rq
+            .iter()
+            .map(|(name, policy, amount)| {
+                let a = ResourceAmount::new((*amount / 10_000) as u32, (*amount % 10_000) as u32);
+                ResourceAllocRequest {
+                    resource_id: self.map.get_index(name).expect("unknown resource"),
+                    request: match policy.as_str() {
+                        "compact" => AllocationRequest::Compact(a),
+                        "compact!" => AllocationRequest::ForceCompact(a),
+                        "tight" => AllocationRequest::Tight(a),
+                        "tight!" => AllocationRequest::ForceTight(a),
+                        "scatter" => AllocationRequest::Scatter(a),
+                        "all" => AllocationRequest::All,
+                        p => panic!("unknown policy {p}"),
+                    },
+                }
+            })
+            .collect();
+        ResourceRequest::new(0, Default::default(), entries, Default::default())
+    }
+
+    pub fn is_enabled(&self, rq: &SimRequest) -> bool {
+        self.allocator.is_enabled(&self.request(rq))
+    }
+
+    /// Returns a handle of the grant
+    pub fn try_allocate(&mut self, rq: &SimRequest) -> Option<usize> {
+        let r = self.request(rq);
+        let a = self.allocator.try_allocate(&r)?;
+        self.live.push(Some(a));
+        Some(self.live.len() - 1)
+    }
+
+    pub fn release(&mut self, handle: usize) {
+        if let Some(a) = self.live[handle].take() {
+            self.allocator.release_allocation(a);
+        }
+    }
+
+    pub fn live_handles(&self) -> Vec<usize> {
+        self.live
+            .iter()
+            .enumerate()
+            .filter_map(|(i, a)| a.as_ref().map(|_| i))
+            .collect()
+    }
+
+    pub fn allocation_json(&self, handle: usize) -> Value {
+        let a = self.live[handle].as_ref().unwrap();
+        let rs: Vec<Value> = a
+            .resources
+            .iter()
+            .map(|ra| {
+                let (u, f) = ra.amount.split();
+                let idx: Vec<Value> = ra
+                    .indices
+                    .iter()
+                    .map(|i| json!({"i": i.index.as_num(), "g": i.group_idx, "f": i.fractions}))
+                    .collect();
+                json!({"r": ra.resource_id.as_num(), "amount": u as u64 * 10_000 + f as u64, "idx": idx})
+            })
+            .collect();
+        json!(rs)
+    }
+
+    pub fn state_json(&self) -> Value {
+        let pools: Vec<Value> = self.allocator.pools.iter().map(|p| p.verif_dump()).collect();
+        json!({"pools": pools, "concise": self.allocator.free_resources.verif_dump()})
+    }
+}
